@@ -538,9 +538,10 @@ def apply_method(e, t):
     raise ValueError(t[0])
 
 
-def resolved_origin(e, t, mode="method"):
+def resolved_origin(e, t):
     """The origin the documentation promises when None is passed (centre before the call; zero for mirror;
-    Point.rotate/scale and Array.rotate/scale document the zero origin, ElementBase.transform the centre)."""
+    Point.rotate/scale and Array.rotate/scale document the zero origin).  A transformation list is the sequence of
+    method calls on the entity (fix C09-9), so the same defaults hold for entity.transform([...])."""
     np = _np()
     if t[0] == "translate":
         return None
@@ -551,7 +552,7 @@ def resolved_origin(e, t, mode="method"):
         return [0.0, 0.0, 0.0]
     from classy_blocks.construct.array import Array
     from classy_blocks.construct.point import Point
-    if isinstance(e, (Point, Array)) and mode == "method":
+    if isinstance(e, (Point, Array)):
         return [0.0, 0.0, 0.0]  # documented default of the leaves
     with warnings.catch_warnings():
         warnings.simplefilter("ignore")
@@ -604,16 +605,17 @@ def transform_entity(e, tlist, mode):
                 warnings.simplefilter("ignore")
                 apply_method(e, t)
     else:
-        # origins of a list are resolved one after the other, on the entity as transformed so far: read the
-        # centre the implementation itself reports before each step on a twin that is moved step by step
+        # a list is the sequence of method calls: default origins are resolved one after the other, on the entity
+        # as transformed so far - read the centre the implementation reports before each step on a twin that is
+        # moved step by step *by method calls* (the expectation does not go through transform())
         twin = e.copy() if any(t[0] in ("rotate", "scale") and t[-1] is None for t in tlist) else None
         for t in tlist:
-            o = resolved_origin(twin if twin is not None else e, t, "list")
+            o = resolved_origin(twin if twin is not None else e, t)
             maps.append(affine_of(t, o))
             if twin is not None:
                 with warnings.catch_warnings():
                     warnings.simplefilter("ignore")
-                    twin.transform([mk_tr(t)])
+                    apply_method(twin, t)
         with warnings.catch_warnings():
             warnings.simplefilter("ignore")
             e.transform([mk_tr(t) for t in tlist])
@@ -681,7 +683,15 @@ def observe(e, spec_kind):
                     ed = factory.create(vs[i], vs[(i + 1) % 4], face.edges[i])
                     if ed.kind != "line":
                         edges.append((base + i, base + (i + 1) % 4, _edge_obs(ed)))
-            return dict(verts=verts, edges=edges, ordered=False)
+            out = dict(verts=verts, edges=edges, ordered=False)
+            # lengths a sketch keeps beside its points (SplineRound: straight sides, widths; radii derived from them)
+            scal = {}
+            for a in SKETCH_SCALARS:
+                if spec_kind == "sketch" and hasattr(e, a):
+                    scal[a] = float(getattr(e, a))
+            if scal:
+                out["scalars"] = scal
+            return out
         # operations and anything made of them: the assembled mesh
         mesh = cb.Mesh()
         mesh.add(e)
@@ -701,6 +711,9 @@ def observe(e, spec_kind):
                         faces=mesh.face_list.description, patches=mesh.patch_list.description,
                         geometry=mesh.geometry_list.description)
         return dict(verts=verts, edges=edges, ordered=False, used=sorted(used), defined=sorted(defined), sections=sections)
+
+
+SKETCH_SCALARS = ("side_1", "side_2", "width_1", "width_2", "r_1", "r_2", "r_1_outer", "r_2_outer")
 
 
 def _size(obs):
@@ -803,6 +816,10 @@ def oracle_transform(obs0, obs1, amap):
                 return "direction: angle-edge axis %s, expected parallel to %s (rotated/reflected, not displaced)" % (got.tolist(), exp.tolist())
         if o0["label"] != o1["label"]:
             return "edge-label: %r became %r" % (o0["label"], o1["label"])
+    for a, x0 in sorted(obs0.get("scalars", {}).items()):
+        x1 = obs1.get("scalars", {}).get(a)
+        if x1 is None or abs(abs(x1) - abs(k) * abs(x0)) > tol:
+            return "scalar-length: %s is %r, expected |ratio| x original = %.12g" % (a, x1, abs(k) * abs(x0))
     if "used" in obs1:
         missing = [l for l in obs1["used"] if l is not None and l not in obs1["defined"] and l != "geo"]
         if missing:
@@ -1196,7 +1213,23 @@ def check_transform_case(case):
         obs1 = normalise_labels(observe(e1, spec[0]))
     except Exception as ex:
         return "exception: %s: %s" % (type(ex).__name__, str(ex)[:150])
-    return oracle_transform(obs0, obs1, amap)
+    why = oracle_transform(obs0, obs1, amap)
+    if mode == "list":
+        # entity.transform([t1, t2, ...]) must be entity.<t1>(...).<t2>(...) on ANY entity, own overrides included
+        # (an operation mirrored through a list is not inverted: same geometry, side edges running the other way -
+        # the comparison accepts an edge listed from its other end)
+        np = _np()
+        try:
+            e2 = mk_entity(spec)
+            transform_entity(e2, tlist, "method")
+            obs2 = normalise_labels(observe(e2, spec[0]))
+        except Exception as ex:
+            return "exception: %s: %s" % (type(ex).__name__, str(ex)[:150])
+        diff = oracle_transform(obs2, obs1, (np.eye(3), np.zeros(3), 1.0, 1.0, np.eye(3)))
+        if diff:
+            return "list-differs: transform([...]) is not the sequence of method calls: %s%s" % (
+                diff, " [against the affine image of the original: %s]" % why if why else "")
+    return why
 
 
 def check_copy_case(case):
@@ -1558,12 +1591,10 @@ class C09(Prop):
         if kind == "copy" and why == "geometry-undefined" and klass.split(":")[-1] in ("EighthSphere", "Hemisphere"):
             # geometry_label is f"sphere_{id(self)}": the copy's faces keep the label of the original
             return "C09:copy:geometry-undefined:sphere"
-        if kind == "transform" and rp.get("mode") == "list":
-            # ElementBase.transform hands the calls to the parts: the entity's own overrides are bypassed
-            if klass == "edgedata:angle" and why == "direction":
-                return "C09:transform-list:own-override-bypassed:Angle"
-            if klass == "curve:circle" and "mirror" in kinds and why in ("position", "length"):
-                return "C09:transform-list:own-override-bypassed:CircleCurve"
+        if kind == "transform" and rp.get("mode") == "list" and why == "list-differs":
+            # entity.transform([...]) is not the sequence of method calls on that entity (before fix C09-9 the calls
+            # went to the parts: Angle.*, CircleCurve.mirror, SplineRound.scale and the leaves' default origin bypassed)
+            return "C09:transform-list:not-the-method-calls:%s" % klass
         if kind == "transform" and "mirror" in kinds and why == "edge-shape" and "direction reversed" in full:
             # Operation.mirror swaps the faces (invert) but leaves the side edges running the old way
             return "C09:mirror:operation-side-edge-not-reversed"
